@@ -79,7 +79,11 @@ type MuxScenario struct {
 	Script []string `json:"script"` // optional TLC-derived preference order of goroutine labels
 	// Bulk: after the connection is established the dialer waits BulkDelay ms, then writes BulkLen
 	// pattern bytes while the acceptor starts reading BulkReadDelay ms late (complete and in order?)
-	BulkLen       int `json:"bulk_len"`
+	// AcceptorFirst: the accepting side writes a greeting on the connection as soon as Accept returns, before it
+	// reads anything; the dialer reads it first (with the dialer held before its ack read, acknowledgement and
+	// greeting are both there when it reads the acknowledgement)
+	AcceptorFirst bool `json:"acceptor_first,omitempty"`
+	BulkLen       int  `json:"bulk_len"`
 	BulkDelay     int `json:"bulk_delay"`
 	BulkReadDelay int `json:"bulk_read_delay"`
 }
@@ -112,6 +116,8 @@ func (p *capPlugin) Client(b *plugin.MuxBroker, c *rpc.Client) (interface{}, err
 // progress is watched by a real-time watchdog outside the bubble.
 var muxProgress atomic.Int64
 var muxCurrent atomic.Value // string: scenario name
+
+const greetLen = 64
 
 func pattern(idx int, n int) []byte {
 	b := make([]byte, n)
@@ -298,6 +304,13 @@ func runMuxScenario(t *testing.T, s MuxScenario, outDir string) map[string]inter
 			if err != nil {
 				return
 			}
+			if s.AcceptorFirst {
+				g := make([]byte, 2+greetLen)
+				conn.SetDeadline(time.Now().Add(3 * time.Second))
+				n, err := io.ReadFull(conn, g)
+				ok := err == nil && g[0] == 0xA5 && string(g[2:]) == string(pattern(int(g[1])+500, greetLen))
+				rec.Log("greet", c.Side, int64(c.ID), 0, map[string]interface{}{"dial": c.Name, "intact": ok, "n": n, "err": fmt.Sprint(err)})
+			}
 			// identify ourselves on the data path: index byte + pattern
 			buf := append([]byte{byte(dialIdx[c.Name])}, pattern(dialIdx[c.Name], xferLen)...)
 			conn.SetDeadline(time.Now().Add(3 * time.Second))
@@ -343,6 +356,10 @@ func runMuxScenario(t *testing.T, s MuxScenario, outDir string) map[string]inter
 				return
 			}
 			conn.SetDeadline(time.Now().Add(3 * time.Second))
+			if s.AcceptorFirst {
+				ai := int(c.ID % 200)
+				conn.Write(append([]byte{0xA5, byte(ai)}, pattern(ai+500, greetLen)...))
+			}
 			buf := make([]byte, 1+xferLen)
 			if _, err := io.ReadFull(conn, buf); err != nil {
 				rec.Log("note", c.Side, 0, 0, map[string]interface{}{"what": "accept read failed", "err": err.Error()})
